@@ -316,6 +316,9 @@ func Generate(profile string, seed uint64, tier string) (*Scenario, error) {
 	case "C04c":
 		sc.Property = "C04"
 		genC04c(g, sc, tier)
+	case "C20c":
+		sc.Property = "C20"
+		genC20c(g, sc, tier)
 	default:
 		return genOther(g, sc, profile, tier)
 	}
@@ -486,7 +489,7 @@ func Execute(sc *Scenario) *Verdict {
 		return RunConcScenario(sc)
 	case "C04", "C07", "C12x", "C13", "C19", "C20":
 		return RunCrashScenario(sc)
-	case "C04c":
+	case "C04c", "C20c":
 		return RunConcCrashScenario(sc)
 	}
 	return execOther(sc)
